@@ -1,4 +1,5 @@
 import ZmqVerif.Lemmas.WorldMaps
+import ZmqVerif.Lemmas.WorldSendStart
 /-!
 # C09 — ROUTER labels inbound messages with the true sender and routes by first frame
 
@@ -103,5 +104,24 @@ theorem C09_label (k : Ident) (m : Msg) : routerIn k m = k :: m ∧ (routerIn k 
 
 /-- non-vacuity: a message of fewer than two frames is not routable (the code asserts) -/
 example (w : World) : (routerSendStart w 1 [[1]]).2.2 = .ready .panic := rfl
+
+/-- **`RouterSocket::send` against the wires**: a message of two or more frames goes — minus its first frame — to
+EXACTLY the connected peer whose identity equals that frame; if no such peer is connected (or the frame cannot be an
+identity) the send fails and NOTHING is written to any connection. -/
+theorem C09_world_router_send (w : World) (sid : Nat) (t : Bytes) (rest : Msg) (hne : rest ≠ []) (s : Socket)
+    (hs : getSock w sid = some s) (w' : World) (f' : FutSt) (o : POut)
+    (h : routerSendStart w sid (t :: rest) = (w', f', o)) :
+    match (generalizing := false) f', o with
+    | .sendTo _ k st _, .pending =>
+        k = t ∧ ∃ wr, ilookup s.peers t = some wr ∧
+          SendInv w' sid t wr.pipe (outOf w.pipes wr) (encodeMsg rest) st ∧
+          ∀ j, j ≠ wr.pipe → wOf w'.pipes j = wOf w.pipes j
+    | _, .ready .okUnit =>
+        ∃ wr, ilookup s.peers t = some wr ∧
+          (wOf w'.pipes wr.pipe).wire = outOf w.pipes wr ++ encodeMsg rest ∧
+          ∀ j, j ≠ wr.pipe → wOf w'.pipes j = wOf w.pipes j
+    | _, .ready (.err _) => (ilookup s.peers t = none ∨ t = [] ∨ t.length > 255) → ∀ j, wOf w'.pipes j = wOf w.pipes j
+    | _, _ => False :=
+  routerSendStart_spec w sid t rest hne s hs w' f' o h
 
 end Zmq.C09
